@@ -117,10 +117,59 @@ def mentions(test: ast.AST, texts: Set[str]) -> bool:
 
 
 # ------------------------------------------------------------------------------------------- V1/V2/V7
+_NORMALISED: Dict[int, ast.AST] = {}
+
+
+def role_normalised_reader(fn: FuncInfo) -> ast.AST:
+    """ReadParameter with its names put back to the ones the rules are written in, by role: the two leading parameters are the entry read
+    (`ParameterReadIn`) and the parameter to modify (`ParamToModify`); in every `isinstance(<param>, <class>)` arm that does not bind
+    `New_val`, the candidate value - the local compared with <param>.Min / .Max / .AllowableRange, else the one local stored into
+    <param>.value - is `New_val`.  A parent-linked clone; positions are kept.  No renaming happens when the target name is already in use."""
+    if id(fn.node) in _NORMALISED:
+        return _NORMALISED[id(fn.node)]
+    from gxstat.srcmodel import set_parents
+    node = clone(fn.node)
+    used = {n.id for n in ast.walk(node) if isinstance(n, ast.Name)} | {a.arg for a in node.args.args}
+
+    def rename(root: ast.AST, old: str, new: str) -> None:
+        for n in ast.walk(root):
+            if isinstance(n, ast.Name) and n.id == old:
+                n.id = new
+            elif isinstance(n, ast.arg) and n.arg == old:
+                n.arg = new
+    args = [a.arg for a in node.args.args]
+    if len(args) >= 2:
+        for old, new in ((args[0], 'ParameterReadIn'), (args[1], P)):
+            if old != new and new not in used:
+                rename(node, old, new)
+    for arm in [n for n in ast.walk(node) if isinstance(n, ast.If) and isinstance(n.test, ast.Call) and dotted_name(n.test.func) == 'isinstance'
+                and len(n.test.args) == 2 and norm(n.test.args[0]) == P]:
+        scope = ast.Module(body=arm.body, type_ignores=[])
+        bound = {n.id for n in ast.walk(scope) if isinstance(n, ast.Name) and isinstance(n.ctx, ast.Store)}
+        if 'New_val' in bound or 'New_val' in {n.id for n in ast.walk(scope) if isinstance(n, ast.Name)}:
+            continue
+        cands: Set[str] = set()
+        for c in ast.walk(scope):
+            if isinstance(c, ast.Compare) and isinstance(c.left, ast.Name) and c.left.id in bound:
+                txt = ' '.join(norm(x) for x in c.comparators)
+                if f'{P}.Min' in txt or f'{P}.Max' in txt or f'{P}.AllowableRange' in txt:
+                    cands.add(c.left.id)
+        if not cands:
+            cands = {st.value.id for st in ast.walk(scope) if isinstance(st, ast.Assign) and norm(st.targets[0]) == f'{P}.value'
+                     and isinstance(st.value, ast.Name) and st.value.id in bound}
+        if len(cands) == 1:
+            rename(scope, next(iter(cands)), 'New_val')
+    ast.fix_missing_locations(node)
+    set_parents(node)
+    _NORMALISED[id(fn.node)] = node
+    return node
+
+
 def _arm_for(fn: FuncInfo, clsname: str) -> Optional[ast.If]:
-    """The `if/elif isinstance(ParamToModify, <clsname>)` arm at the top level of ReadParameter that defines New_val."""
+    """The `if/elif isinstance(ParamToModify, <clsname>)` arm at the top level of ReadParameter that defines New_val (on the
+    role-normalised clone of the function)."""
     best = None
-    for n in walk_no_nested(fn.node):
+    for n in walk_no_nested(role_normalised_reader(fn)):
         if isinstance(n, ast.If) and isinstance(n.test, ast.Call) and dotted_name(n.test.func) == 'isinstance' \
                 and len(n.test.args) == 2 and norm(n.test.args[0]) == P and norm(n.test.args[1]) == clsname:
             # the numeric arm is the one that stores a validated value (not the early bool/str shortcut)
